@@ -3,6 +3,7 @@ import SspModel.Lemmas.Bridge.BHPop
 import SspModel.Lemmas.Bridge.Sev
 import SspModel.Props.C01
 import SspModel.Props.C11
+import SspModel.Props.C09
 /-!
 # C19 — the initial-BH-population shortcut agrees with the full model
 
@@ -52,5 +53,244 @@ theorem star_side (c : SevCfg ℝ) (fa t : ℝ) (Ns alpha : List ℝ) (b : BHOut
           · cases ho; exact ⟨rfl, rfl, rfl⟩
     · simp only [ht] at hb ho
       cases hb; cases ho; exact ⟨rfl, rfl, rfl⟩
+
+
+theorem bhEntry_zero (j : Nat) (i : Nat) : (BHOut.bhEntry (⟨none, 0, true, some (j, (0:ℝ), (0:ℝ))⟩ : BHOut ℝ) i) = (0, 0) := by
+  unfold BHOut.bhEntry; simp
+
+/-- up to the final age, with full BH retention, the BH entries of the nested derivative are those of the full derivative -/
+theorem deposit_side (c : SevCfg ℝ) (fa t : ℝ) (Ns alpha : List ℝ) (b : BHOut ℝ) (o : SevOut ℝ)
+    (hfull : c.fBH = 1) (hta : t ≤ fa)
+    (hb : derivsBH c c.nmin fa t Ns alpha = .ok b) (ho : derivsSev c t Ns alpha = .ok o) (hflux : o.dNs ≤ 0) :
+    ∀ i, b.bhEntry i = o.bhEntry i := by
+  intro i
+  unfold derivsBH at hb
+  unfold derivsSev at ho
+  cases hlast : c.tmsU.getLast? with
+  | none => simp only [hlast] at hb ho; cases hb; cases ho; rfl
+  | some tlast =>
+    simp only [hlast] at hb ho
+    by_cases ht : Scalar.lt tlast t = true
+    · simp only [ht, if_true] at hb ho
+      cases hf : firstTurnedOff c.tmsU t 0 with
+      | none => simp only [hf] at hb ho; cases hb; cases ho; rfl
+      | some isev =>
+        simp only [hf] at hb ho
+        have hle : Scalar.le t fa = true := by simp only [Scalar.le, decide_eq_true_eq]; exact hta
+        simp only [hle, Bool.true_and, real_zero] at hb
+        simp only [real_zero] at ho
+        by_cases hm : Scalar.lt (0:ℝ) (predict c.ifmr (mtoFin c.a0 c.a1 c.a2 t)) = true
+        · simp only [hm, if_true, Bool.and_true] at hb ho
+          cases hcls : predictType c.ifmr (mtoFin c.a0 c.a1 c.a2 t) with
+          | BH =>
+            simp only [hcls, SevCfg.remBins, SevCfg.frem] at hb ho
+            cases hidx : determineIndex c.bh (predict c.ifmr (mtoFin c.a0 c.a1 c.a2 t)) with
+            | error e => simp only [hidx] at hb; cases hb
+            | ok irem =>
+              simp only [hidx] at hb ho
+              cases hb
+              split at ho
+              · cases ho
+                simp only [BHOut.bhEntry, SevOut.bhEntry, hfull, real_one, mul_one]
+              · rename_i hneg
+                cases ho
+                simp only [Scalar.lt, real_zero, decide_eq_true_eq, not_lt] at hneg
+                simp only at hflux
+                have h0 : -(sevDNdm c.nmin (Ns.getD isev 0) (alpha.getD isev 0) (c.ms.getD isev (0, 0)).1
+                    (mtoFin c.a0 c.a1 c.a2 t)).1 * dmdtAbs c.a0 c.a1 c.a2 t = 0 := le_antisymm hflux hneg
+                simp only [BHOut.bhEntry, SevOut.bhEntry, h0, real_one, real_zero, mul_one, neg_zero, mul_zero]
+                split <;> rfl
+          | WD => simp only [hcls] at hb; cases hb
+          | NS => simp only [hcls] at hb; cases hb
+        · simp only [hm, Bool.and_false] at hb ho
+          simp only [Bool.false_eq_true, if_false] at hb ho
+          cases hb; cases ho; rfl
+    · simp only [ht] at hb ho
+      cases hb; cases ho; rfl
+
+/-- after the final age nothing more is deposited (stars keep turning off) -/
+theorem no_deposit_after (c : SevCfg ℝ) (nm fa t : ℝ) (Ns alpha : List ℝ) (b : BHOut ℝ) (hta : fa < t)
+    (hb : derivsBH c nm fa t Ns alpha = .ok b) : b.rem = none := by
+  unfold derivsBH at hb
+  have hle : Scalar.le t fa = false := by simp only [Scalar.le, decide_eq_false_iff_not, not_le]; exact hta
+  simp only [hle, Bool.false_and, Bool.false_eq_true, if_false] at hb
+  split at hb
+  · cases hb; rfl
+  · split at hb
+    · split at hb
+      · cases hb; rfl
+      · cases hb; rfl
+    · cases hb; rfl
+
+
+/-! ## the reported age -/
+
+/-- at the reported age the turn-off mass is the lightest BH progenitor + offset -/
+theorem mto_at_finalAge (c : SevCfg ℝ) (off : ℝ) (h0 : 0 < c.a0) (h1 : 0 < c.a1) (h2 : c.a2 ≠ 0) (hm : 0 < c.ifmr.bhLo + off) :
+    mtoFin c.a0 c.a1 c.a2 (finalAge c off) = c.ifmr.bhLo + off := by
+  unfold finalAge; exact mto_tms c.a0 c.a1 c.a2 _ h0 h1 h2 hm
+
+/-- up to the reported age every star that turns off makes a BH (the `RuntimeError` cannot fire) -/
+theorem class_BH_until_finalAge (c : SevCfg ℝ) (off t : ℝ) (h0 : 0 < c.a0) (h1 : 0 < c.a1) (h2 : c.a2 < 0)
+    (hlo : 0 < c.ifmr.bhLo) (hoff : 0 ≤ off) (hw : c.ifmr.wdHi ≤ c.ifmr.bhLo) (ht0 : c.a0 < t) (ht : t ≤ finalAge c off) :
+    predictType c.ifmr (mtoFin c.a0 c.a1 c.a2 t) = .BH := by
+  have hm : 0 < c.ifmr.bhLo + off := by linarith
+  have hfa : c.a0 < finalAge c off := by unfold finalAge; exact a0_lt_tms c.a0 c.a1 c.a2 _ h0 h1 hm
+  have hanti := mtoFin_strictAntiOn c.a0 c.a1 c.a2 h0 h1 h2
+  have hge : c.ifmr.bhLo + off ≤ mtoFin c.a0 c.a1 c.a2 t := by
+    rw [← mto_at_finalAge c off h0 h1 h2.ne hm]
+    rcases eq_or_lt_of_le ht with rfl | hlt
+    · exact le_rfl
+    · exact (hanti ht0 hfa hlt).le
+  exact ((C09.predictType_spec c.ifmr _ hw).2.2).2 (by linarith)
+
+/-! ## loss bookkeeping -/
+
+/-- exact (residue-free) survivors of a bin when the turn-off mass is `mto` -/
+noncomputable def ideal (b : ClosedBin ℝ) (mto : ℝ) : ℝ :=
+  if b.u ≤ mto then b.n0 else if b.l < mto then b.A * PkCore b.a 1 b.l mto else 0
+
+/-- IMF moment `k` of the part of the bin above `mto` -/
+noncomputable def above (k : ℝ) (b : ClosedBin ℝ) (mto : ℝ) : ℝ := b.A * PkCore b.a k (max b.l (min mto b.u)) b.u
+
+theorem bin_losses (b : ClosedBin ℝ) (mto : ℝ) (hl : 0 < b.l) (hlu : b.l < b.u) :
+    b.n0 - ideal b mto = above 1 b mto ∧
+    b.A * PkCore b.a 2 b.l b.u - massOf (ideal b mto) b.a b.l (truncU b mto) = above 2 b mto := by
+  have hu : 0 < b.u := lt_trans hl hlu
+  unfold ideal above truncU massOf ClosedBin.n0
+  simp only [Scalar.le, Scalar.lt, Bool.and_eq_true, decide_eq_true_eq, real_one, real_two]
+  by_cases h1 : b.u ≤ mto
+  · have hmin : min mto b.u = b.u := min_eq_right h1
+    have hmax : max b.l b.u = b.u := max_eq_right hlu.le
+    have hP := PkCore_pos b.a 1 b.l b.u hl hlu
+    rw [if_pos h1, if_neg (by intro h; linarith [h.2]), hmin, hmax, PkCore_self _ _ _ hu, PkCore_self _ _ _ hu]
+    constructor
+    · ring
+    · field_simp; ring
+  · push Not at h1
+    have hmin : min mto b.u = mto := min_eq_left h1.le
+    rw [if_neg (by linarith), hmin]
+    by_cases h2 : b.l < mto
+    · have hmax : max b.l mto = mto := max_eq_right h2.le
+      have hP := PkCore_pos b.a 1 b.l mto hl h2
+      rw [if_pos h2, if_pos ⟨h2.le, h1⟩, hmax]
+      have a1 := PkCore_add b.a 1 b.l mto b.u hl h2.le h1.le
+      have a2 := PkCore_add b.a 2 b.l mto b.u hl h2.le h1.le
+      constructor
+      · rw [← a1]; ring
+      · rw [← a2]; field_simp; ring
+    · push Not at h2
+      have hmax : max b.l mto = b.l := max_eq_left h2
+      rw [if_neg (by linarith), hmax]
+      constructor
+      · ring
+      · split <;> simp
+
+theorem sumL_cons (x : ℝ) (t : List ℝ) : sumL (x :: t) = x + sumL t := rfl
+theorem sumL_nil : sumL ([] : List ℝ) = 0 := by simp only [sumL, real_zero]
+
+/-- **loss bookkeeping**: with residue-free final counts the reported losses are the IMF number and mass above the final turn-off -/
+theorem losses_eq (bins : List (ClosedBin ℝ)) (mto : ℝ) (hpos : ∀ b ∈ bins, 0 < b.l ∧ b.l < b.u) :
+    losses bins (bins.map (ideal · mto)) mto = (sumL (bins.map (above 1 · mto)), sumL (bins.map (above 2 · mto))) := by
+  unfold losses
+  induction bins with
+  | nil => simp [sumL_nil]
+  | cons b bs ih =>
+    have hb := hpos b List.mem_cons_self
+    have ih' := ih (fun x hx => hpos x (List.mem_cons_of_mem _ hx))
+    obtain ⟨l1, l2⟩ := bin_losses b mto hb.1 hb.2
+    simp only [List.map_cons, List.zip_cons_cons, sumL_cons, Prod.mk.injEq] at ih' ⊢
+    obtain ⟨i1, i2⟩ := ih'
+    constructor
+    · rw [← l1, ← i1]; ring
+    · rw [← l2, ← i2]; ring
+
+/-! ## the stellar mass lost is at least the BH mass formed -/
+
+/-- a piece of progenitors `[p, q]` whose (linear) remnant mass does not exceed the progenitor mass at both ends yields at most
+    the progenitors' own mass -/
+theorem piece_mass_le (b : ClosedBin ℝ) (p q yp yq : ℝ) (hp : 0 < p) (hpq : p < q) (hA : 0 ≤ b.A) (h1 : yp ≤ p) (h2 : yq ≤ q) :
+    (pieceNM b p q yp yq).2 ≤ b.A * PkCore b.a 2 p q := by
+  unfold pieceNM
+  simp only [real_one, real_two]
+  obtain ⟨m1, m2⟩ := mean_in_interval b.a p q hp hpq
+  have hP := PkCore_pos b.a 1 p q hp hpq
+  rw [lt_div_iff₀ hP] at m1
+  rw [div_lt_iff₀ hP] at m2
+  have hd : 0 < q - p := by linarith
+  set P1 := PkCore b.a 1 p q
+  set P2 := PkCore b.a 2 p q
+  set s := (yq - yp) / (q - p) with hs
+  have hsq : s * (q - p) = yq - yp := by rw [hs]; field_simp
+  -- A·P2 − [yp·A·P1 + s·(A·P2 − p·A·P1)] = A·[(P2 − p·P1)(1 − s) + P1 (p − yp)]
+  by_cases hs1 : s ≤ 1
+  · have : b.A * P2 - (yp * (b.A * P1) + s * (b.A * P2 - p * (b.A * P1)))
+        = b.A * ((P2 - p * P1) * (1 - s) + P1 * (p - yp)) := by ring
+    have hnn : 0 ≤ (P2 - p * P1) * (1 - s) + P1 * (p - yp) := by
+      have t1 : 0 ≤ (P2 - p * P1) * (1 - s) := mul_nonneg (by linarith) (by linarith)
+      have t2 : 0 ≤ P1 * (p - yp) := mul_nonneg hP.le (by linarith)
+      linarith
+    nlinarith [mul_nonneg hA hnn]
+  · push Not at hs1
+    have : b.A * P2 - (yp * (b.A * P1) + s * (b.A * P2 - p * (b.A * P1)))
+        = b.A * ((q * P1 - P2) * (s - 1) + P1 * (q - yq)) := by
+      have : yp = yq - s * (q - p) := by linarith
+      rw [this]; ring
+    have hnn : 0 ≤ (q * P1 - P2) * (s - 1) + P1 * (q - yq) := by
+      have t1 : 0 ≤ (q * P1 - P2) * (s - 1) := mul_nonneg (by linarith) (by linarith)
+      have t2 : 0 ≤ P1 * (q - yq) := mul_nonneg hP.le (by linarith)
+      linarith
+    nlinarith [mul_nonneg hA hnn]
+
+structure Statement : Prop where
+  /-- the hard-coded "empty bin" threshold of the nested derivative is `EvolvedMF`'s `Nmin`; the age offset is 0.1 Msun -/
+  source_nmin : (Generated.NminBH : ℝ) = Generated.Nmin
+  source_offset : (Generated.finalAgeOffset : ℝ) = 1e-1
+  /-- the source's duplicated lifetime closures are the model's (and hence `EvolvedMF`'s) -/
+  source_tms : ∀ a0 a1 a2 m : ℝ, Generated.tms_bh a0 a1 a2 m = Generated.tms_main a0 a1 a2 m
+  source_dmdt : ∀ a0 a1 a2 t : ℝ, Generated.dmdt_bh a0 a1 a2 t = Generated.dmdt_sev a0 a1 a2 t
+  source_mto : ∀ a0 a1 a2 t : ℝ,
+    (if Generated.mto_bh_cond a0 t then some (Generated.mto_bh_fin a0 a1 a2 t) else none) =
+    (if Generated.mto_main_cond a0 t then some (Generated.mto_main_fin a0 a1 a2 t) else none)
+  stars : ∀ (c : SevCfg ℝ) (fa t : ℝ) (Ns alpha : List ℝ) (b : BHOut ℝ) (o : SevOut ℝ),
+    derivsBH c c.nmin fa t Ns alpha = .ok b → derivsSev c t Ns alpha = .ok o →
+    b.isev = o.isev ∧ b.dNs = o.dNs ∧ b.defined = o.defined
+  deposit : ∀ (c : SevCfg ℝ) (fa t : ℝ) (Ns alpha : List ℝ) (b : BHOut ℝ) (o : SevOut ℝ), c.fBH = 1 → t ≤ fa →
+    derivsBH c c.nmin fa t Ns alpha = .ok b → derivsSev c t Ns alpha = .ok o → o.dNs ≤ 0 → ∀ i, b.bhEntry i = o.bhEntry i
+  stops : ∀ (c : SevCfg ℝ) (nm fa t : ℝ) (Ns alpha : List ℝ) (b : BHOut ℝ), fa < t →
+    derivsBH c nm fa t Ns alpha = .ok b → b.rem = none
+  age : ∀ (c : SevCfg ℝ) (off : ℝ), 0 < c.a0 → 0 < c.a1 → c.a2 ≠ 0 → 0 < c.ifmr.bhLo + off →
+    mtoFin c.a0 c.a1 c.a2 (finalAge c off) = c.ifmr.bhLo + off
+  all_BH : ∀ (c : SevCfg ℝ) (off t : ℝ), 0 < c.a0 → 0 < c.a1 → c.a2 < 0 → 0 < c.ifmr.bhLo → 0 ≤ off →
+    c.ifmr.wdHi ≤ c.ifmr.bhLo → c.a0 < t → t ≤ finalAge c off → predictType c.ifmr (mtoFin c.a0 c.a1 c.a2 t) = .BH
+  lost : ∀ (bins : List (ClosedBin ℝ)) (mto : ℝ), (∀ b ∈ bins, 0 < b.l ∧ b.l < b.u) →
+    losses bins (bins.map (ideal · mto)) mto = (sumL (bins.map (above 1 · mto)), sumL (bins.map (above 2 · mto)))
+  mass_not_gained : ∀ (b : ClosedBin ℝ) (p q yp yq : ℝ), 0 < p → p < q → 0 ≤ b.A → yp ≤ p → yq ≤ q →
+    (pieceNM b p q yp yq).2 ≤ b.A * PkCore b.a 2 p q
+  /-- a population built from a mass function: each bin gets the IMF integrals, with the bin's segment slope (C11) -/
+  bhmf : ∀ (ext : Nat) (segs : List (Seg ℝ)) (n : ℝ) (bins : List (Bin ℝ)),
+    fromBHMF ext segs n bins = bins.map fun b => binnedEval1 ext segs n b.1 b.2
+  bhmf_total : ∀ (segs : List (Seg ℝ)) (n : ℝ), SegsPos segs → segs ≠ [] → C11.totalIntegral segs (imfA segs) n = n
+  bhmf_aligned : ∀ (a k e0 : ℝ) (es : List ℝ), 0 < e0 → (e0 :: es).IsChain (· ≤ ·) →
+    ((e0 :: es).zipWith (fun l u => PkCore a k l u) es).sum = PkCore a k e0 ((e0 :: es).getLast (by simp))
+
+/-- **C19 (partial)**: derivative-level agreement, age, bookkeeping and construction are proved; that dopri5 output of the two
+    ODE systems agrees is observed (default and tightened tolerance); kicks are C15's per-bin theorem. -/
+theorem C19_partial : Statement where
+  source_nmin := by simp only [Generated.NminBH, Generated.Nmin]
+  source_offset := by simp only [Generated.finalAgeOffset, real_ofSci]; try norm_num
+  source_tms := fun a0 a1 a2 m => by rw [Bridge.gen_tms_bh, Bridge.gen_tms_main]
+  source_dmdt := fun a0 a1 a2 t => by rw [Bridge.gen_dmdt_bh, Bridge.gen_dmdt_sev]
+  source_mto := fun a0 a1 a2 t => by rw [Bridge.gen_mto_bh, Bridge.gen_mto_main]
+  stars := star_side
+  deposit := deposit_side
+  stops := no_deposit_after
+  age := mto_at_finalAge
+  all_BH := class_BH_until_finalAge
+  lost := losses_eq
+  mass_not_gained := piece_mass_le
+  bhmf := fun _ _ _ _ => rfl
+  bhmf_total := C11.C11_partial.normalised
+  bhmf_aligned := C11.C11_partial.aligned_sum
 
 end Model.C19
